@@ -5,6 +5,7 @@ R7.1 driver table: with recovery on, an Error action calls recover once, pushes 
 R7.2 the time budget only shrinks and bounds the deadline; every loop of the recovery cone is deadline-tested, iterator
      driven, counter-bounded or consuming
 R7.3 every failing exit of recover returns (the input index it was given, no repairs)
+R7.4 success criterion of the search: three trailing REAL shifts (Repair(Shift) / Merge(Shift,_)) or Accept
 """
 from mirlib import *
 from lrstep import *
@@ -269,7 +270,15 @@ def r73(facts, res):
         res.lost(R, 'expected >=3 give-up exits and >=1 success exit of recover, found %d / %d' % (nfail, nok))
 
 
+def r74(facts, res):
+    """a repair is accepted only after three REAL shifts (or Accept): shared with C05's success-criterion rule, because
+    consecutive errors lie at least three lexemes apart only if the search really demands three shifts"""
+    import c05
+    c05.r52(facts, res, 'R7.4')
+
+
 def run(facts, res):
+    r74(facts, res)
     r71(facts, res)
     r72(facts, res)
     r73(facts, res)
